@@ -107,10 +107,12 @@ func (r *ruleSelector) String() string {
 }
 
 func (r *ruleSelector) getRules(name string) (rules []*annotations.HttpRule) {
-	rules = append(rules, r.rules...)
 	if name == "" {
 		return append(rules, r.exact...)
 	}
+	// A wildcard stands for one or more components: it covers the names
+	// below this node, not the node's own name.
+	rules = append(rules, r.rules...)
 	tag, name, _ := strings.Cut(name, ".")
 	if r = r.path[tag]; r != nil {
 		return append(rules, r.getRules(name)...)
